@@ -5,12 +5,17 @@ import (
 	"context"
 	"crypto/sha256"
 	"encoding/hex"
+	"errors"
 	"fmt"
 	"os"
+	"path/filepath"
 	"sort"
+	"strings"
+	"sync"
 	"testing"
 
 	"github.com/influxdata/influxdb/v2"
+	"github.com/influxdata/influxdb/v2/bolt"
 	"github.com/influxdata/influxdb/v2/inmem"
 	"github.com/influxdata/influxdb/v2/kit/platform"
 	"github.com/influxdata/influxdb/v2/kv"
@@ -195,4 +200,237 @@ func gkvPermStr(p influxdb.Permission) string {
 		i = fmt.Sprintf("%d", uint64(*p.Resource.ID))
 	}
 	return fmt.Sprintf("%s:%s[org=%s,id=%s]", p.Action, p.Resource.Type, o, i)
+}
+
+// ---- real bolt store (the product's KV store: transactional, a failed Update rolls back) ------
+
+var (
+	gkvBoltTemplateOnce sync.Once
+	gkvBoltTemplate     []byte
+	gkvBoltTemplateErr  error
+)
+
+// gkvNewBoltStore opens a fresh bolt-backed KV store with every kv migration applied, in a file
+// below TMPDIR. The migrated (empty) database is built once per process and copied for every new
+// store. done() closes the store and removes its directory.
+func gkvNewBoltStore(t testing.TB) (st *bolt.KVStore, done func()) {
+	ctx := context.Background()
+	gkvBoltTemplateOnce.Do(func() {
+		dir, err := os.MkdirTemp("", "gkv-bolt-template-")
+		if err != nil {
+			gkvBoltTemplateErr = err
+			return
+		}
+		defer os.RemoveAll(dir)
+		p := filepath.Join(dir, "influxd.bolt")
+		s := bolt.NewKVStore(zap.NewNop(), p, bolt.WithNoSync)
+		if err := s.Open(ctx); err != nil {
+			gkvBoltTemplateErr = err
+			return
+		}
+		if err := all.Up(ctx, zap.NewNop(), s); err != nil {
+			s.Close()
+			gkvBoltTemplateErr = err
+			return
+		}
+		if err := s.Close(); err != nil {
+			gkvBoltTemplateErr = err
+			return
+		}
+		gkvBoltTemplate, gkvBoltTemplateErr = os.ReadFile(p)
+	})
+	if gkvBoltTemplateErr != nil {
+		t.Fatalf("bolt template store: %v", gkvBoltTemplateErr)
+	}
+	dir, err := os.MkdirTemp("", "gkv-bolt-")
+	if err != nil {
+		t.Fatalf("bolt store dir: %v", err)
+	}
+	p := filepath.Join(dir, "influxd.bolt")
+	if err := os.WriteFile(p, gkvBoltTemplate, 0o600); err != nil {
+		os.RemoveAll(dir)
+		t.Fatalf("bolt store file: %v", err)
+	}
+	st = bolt.NewKVStore(zap.NewNop(), p, bolt.WithNoSync)
+	if err := st.Open(ctx); err != nil {
+		os.RemoveAll(dir)
+		t.Fatalf("bolt store open: %v", err)
+	}
+	return st, func() { st.Close(); os.RemoveAll(dir) }
+}
+
+// ---- fault-injecting store --------------------------------------------------------------------
+
+// gkvErrInjected is what an injected fault returns (an I/O error of the KV store, as seen by the
+// service). Services wrap it; recognise it with gkvIsInjected.
+var gkvErrInjected = errors.New("gkv-injected-kv-store-fault: input/output error")
+
+func gkvIsInjected(err error) bool {
+	return err != nil && (errors.Is(err, gkvErrInjected) || strings.Contains(err.Error(), "gkv-injected-kv-store-fault"))
+}
+
+// gkvFault says where the next fault goes. Counting starts when the store is armed.
+//
+//	Mutation n > 0: the n-th Bucket.Put / Bucket.Delete issued inside Update transactions (only those
+//	                on KV bucket Only, if Only != "") returns gkvErrInjected instead of being applied.
+//	CommitTx k > 0: the k-th Update transaction fails at commit: its function ran to the end and
+//	                returned nil, Update returns gkvErrInjected (the underlying store is given the
+//	                error, so a transactional store rolls the transaction back).
+//
+// A fault fires once; after that (and when not armed) the store is transparent.
+type gkvFault struct {
+	Mutation int
+	CommitTx int
+	Only     string
+}
+
+// gkvFired reports what an armed fault did.
+type gkvFired struct {
+	Fired  bool
+	Tx     int    // number of the Update transaction (since arming) the fault hit
+	Mut    int    // number of the mutation inside that transaction (0 for a commit fault)
+	Bucket string // KV bucket of the failed mutation (commit fault: of the last mutation of that transaction)
+	Op     string // "put" | "delete" | "commit"
+	Txs    int    // Update transactions started since arming
+	Muts   int    // mutations seen since arming (all buckets)
+	Trace  []string
+}
+
+// At is the position in the form tx<k>/mut<n> or tx<k>/commit.
+func (f gkvFired) At() string {
+	if !f.Fired {
+		return "not_reached"
+	}
+	if f.Op == "commit" {
+		return fmt.Sprintf("tx%d/commit", f.Tx)
+	}
+	return fmt.Sprintf("tx%d/mut%d", f.Tx, f.Mut)
+}
+
+// gkvFaultStore wraps a kv.SchemaStore (inmem.KVStore and bolt.KVStore both are one; the tenant,
+// dbrp and authorization services take a kv.Store, the migrations a kv.SchemaStore) and passes
+// everything through. View transactions are never touched.
+type gkvFaultStore struct {
+	kv.SchemaStore
+
+	mu    sync.Mutex
+	armed bool
+	plan  gkvFault
+	match int // matching mutations seen since arming
+	info  gkvFired
+}
+
+func gkvNewFaultStore(inner kv.SchemaStore) *gkvFaultStore { return &gkvFaultStore{SchemaStore: inner} }
+
+func (s *gkvFaultStore) Arm(f gkvFault) {
+	s.mu.Lock()
+	s.armed, s.plan, s.match, s.info = true, f, 0, gkvFired{}
+	s.mu.Unlock()
+}
+
+// Disarm makes the store transparent again and reports what happened since Arm.
+func (s *gkvFaultStore) Disarm() gkvFired {
+	s.mu.Lock()
+	defer s.mu.Unlock()
+	s.armed = false
+	out := s.info
+	s.info = gkvFired{}
+	return out
+}
+
+func (s *gkvFaultStore) Update(ctx context.Context, fn func(kv.Tx) error) error {
+	s.mu.Lock()
+	txNo := 0
+	if s.armed {
+		s.info.Txs++
+		txNo = s.info.Txs
+	}
+	s.mu.Unlock()
+	return s.SchemaStore.Update(ctx, func(tx kv.Tx) error {
+		wtx := &gkvFaultTx{Tx: tx, s: s, txNo: txNo}
+		if err := fn(wtx); err != nil {
+			return err
+		}
+		if txNo > 0 && s.commitFault(txNo, wtx.last) {
+			return gkvErrInjected
+		}
+		return nil
+	})
+}
+
+func (s *gkvFaultStore) commitFault(txNo int, lastBucket string) bool {
+	s.mu.Lock()
+	defer s.mu.Unlock()
+	if !s.armed || s.info.Fired || s.plan.CommitTx != txNo {
+		return false
+	}
+	s.info.Fired, s.info.Tx, s.info.Op, s.info.Bucket = true, txNo, "commit", lastBucket
+	s.info.Trace = append(s.info.Trace, fmt.Sprintf("tx%d commit FAULT", txNo))
+	return true
+}
+
+// mutation is called for every Put/Delete of an Update transaction; true = inject the fault.
+func (s *gkvFaultStore) mutation(txNo, mutNo int, bucket, op string) bool {
+	s.mu.Lock()
+	defer s.mu.Unlock()
+	if !s.armed || txNo == 0 {
+		return false
+	}
+	s.info.Muts++
+	hit := false
+	if !s.info.Fired && s.plan.Mutation > 0 && (s.plan.Only == "" || s.plan.Only == bucket) {
+		s.match++
+		hit = s.match == s.plan.Mutation
+	}
+	if len(s.info.Trace) < 64 {
+		e := fmt.Sprintf("tx%d/mut%d %s %s", txNo, mutNo, op, bucket)
+		if hit {
+			e += " FAULT"
+		}
+		s.info.Trace = append(s.info.Trace, e)
+	}
+	if hit {
+		s.info.Fired, s.info.Tx, s.info.Mut, s.info.Bucket, s.info.Op = true, txNo, mutNo, bucket, op
+	}
+	return hit
+}
+
+type gkvFaultTx struct {
+	kv.Tx
+	s    *gkvFaultStore
+	txNo int
+	muts int
+	last string // KV bucket of the last mutation
+}
+
+func (tx *gkvFaultTx) Bucket(name []byte) (kv.Bucket, error) {
+	b, err := tx.Tx.Bucket(name)
+	if err != nil {
+		return nil, err
+	}
+	return &gkvFaultBucket{Bucket: b, tx: tx, name: string(name)}, nil
+}
+
+type gkvFaultBucket struct {
+	kv.Bucket
+	tx   *gkvFaultTx
+	name string
+}
+
+func (b *gkvFaultBucket) Put(k, v []byte) error {
+	b.tx.muts++
+	b.tx.last = b.name
+	if b.tx.s.mutation(b.tx.txNo, b.tx.muts, b.name, "put") {
+		return gkvErrInjected
+	}
+	return b.Bucket.Put(k, v)
+}
+
+func (b *gkvFaultBucket) Delete(k []byte) error {
+	b.tx.muts++
+	b.tx.last = b.name
+	if b.tx.s.mutation(b.tx.txNo, b.tx.muts, b.name, "delete") {
+		return gkvErrInjected
+	}
+	return b.Bucket.Delete(k)
 }
